@@ -86,7 +86,7 @@ func checkC11(c *Ctx) {
 	// random larger name sets, random parameters; also a missing bucket and malformed parameters are left to C20
 	nRand := 40
 	if !c.Quick() {
-		nRand = 5000
+		nRand = 30000
 	}
 	pool := []string{"a", "a.txt", "a/b", "a/c", "ab", "b/c/d", "b/c.e", "a/b/c", "a/b.d", "b", "b/", "c//d", "dir/x", "dir/x/y", "dir.x", "é/ü", "z/o/z", "a/o", "a//", "a/!"}
 	for i := 0; i < nRand; i++ {
